@@ -367,6 +367,8 @@ type mismatch struct {
 	msg  string
 	// identity: the mismatch is about which container sits in a slot (not about scalar content)
 	identity bool
+	// derived: the slot should hold a derived structure (a user type embedding List/Object): C19's retrieval clause
+	derived bool
 }
 
 // resolve handles a slot whose model value refers to a pending node: decide what the observed
@@ -490,7 +492,7 @@ func (h *Hist) checkSlot(owner *Node, where string, typ at.Type, got any, slot *
 			if k := h.byPtr[ptrOf(got)]; k != nil {
 				other = k.Name
 			}
-			return &mismatch{node: owner, identity: true, msg: fmt.Sprintf("%s%s holds %s %s, model says the identical %s", owner.Name, where, other, showGo(got), slot.N.Name)}
+			return &mismatch{node: owner, identity: true, derived: slot.N.Derived > 0, msg: fmt.Sprintf("%s%s holds %s %s, model says the identical %s", owner.Name, where, other, showGo(got), slot.N.Name)}
 		}
 	}
 	return nil
@@ -582,6 +584,9 @@ func (h *Hist) verifyFrom(n *Node, owners []string) bool {
 			if mm.identity && h.curOp == "Clone" {
 				own = []string{"C08"}
 			}
+			if mm.derived && h.curOp != "Clone" {
+				own = append([]string{"C19"}, own...)
+			}
 			h.fail("result", h.curOp, own, "result of "+h.curOp+": "+mm.msg)
 			return false
 		}
@@ -632,7 +637,11 @@ func (h *Hist) heapCheck() {
 			continue
 		}
 		if h.dirty[n.ID] {
-			h.fail("result", h.curOp, h.curOwner, "after "+h.curOp+": "+mm.msg)
+			own := h.curOwner
+			if mm.derived {
+				own = append([]string{"C19"}, own...)
+			}
+			h.fail("result", h.curOp, own, "after "+h.curOp+": "+mm.msg)
 		} else {
 			owners, rel := h.frameOwners(n.ID)
 			h.fail("frame", rel, owners, fmt.Sprintf("%s changed a container it must not touch: %s (relation %s)", h.curOp, mm.msg, rel))
